@@ -142,3 +142,34 @@ def chain_mdps(n, gammas, rewards):
         goal_opt = [(('a', ((goal, F(1)),), F(0)),)]
         for T in product(*per_state, goal_opt):
             yield ('mdp', n, T, (), INIT_MENU[n][0], gamma)
+
+
+def proper_mdps(n, gammas, rewards_by_gamma, inits, action_sets=(('a',), ('a', 'b')), dist_level=1, goal_opts=None,
+                reduce_pairs=False):
+    """MDPs whose last state is explicitly absorbing and in which EVERY deterministic policy reaches
+    it with probability 1 (filtered exactly).  Used by the trial-based planners and learners."""
+    from mc import refmdp
+    goal = n - 1
+    dists = dist_menu(n, dist_level)
+    if goal_opts is None:
+        goal_opts = [(('a', ((goal, F(1)),), F(0)),), (('a', ((0, F(1)),), F(-1)),)]
+    for gamma in gammas:
+        rs = rewards_by_gamma(gamma)
+        per = [(d, r) for d in dists for r in rs]
+        opts = []
+        for s in range(n - 1):
+            o = []
+            for aset in action_sets:
+                if len(aset) == 1:
+                    o += [((aset[0], d, r),) for d, r in per]
+                else:
+                    pairs = list(combinations(per, 2)) if reduce_pairs else list(product(per, repeat=2))
+                    o += [((aset[0], d1, r1), (aset[1], d2, r2)) for (d1, r1), (d2, r2) in pairs]
+            opts.append(o)
+        for T in product(*opts):
+            for gopt in goal_opts:
+                base = ('mdp', n, T + (gopt,), (goal,), inits[0], gamma)
+                if not refmdp.all_proper(refmdp.Spec(base), explicit_only=True):
+                    break
+                for init in inits:
+                    yield ('mdp', n, T + (gopt,), (goal,), init, gamma)
